@@ -24,6 +24,10 @@ void TwoPointsNumericalDerivative::updateDerivatives(const ParameterList& parame
         der1_[i] = log(-1);
         der2_[i] = log(-1);
       }
+      if (function1_)
+        function1_->enableFirstOrderDerivatives(computeD1_);
+      if (function2_)
+        function2_->enableSecondOrderDerivatives(computeD2_);
       return;
     }
 
